@@ -15,6 +15,10 @@ var (
 	// does not have a specified URL field.
 	ErrNoCanonicalURL = errors.New("canonical does not contain url")
 
+	// ErrInvalidCanonical is an error returned when a canonical reference does
+	// not have the form url[|version][#fragment].
+	ErrInvalidCanonical = errors.New("invalid canonical reference")
+
 	// very basic regex for URL matching.
 	// Fragment portion is from https://build.fhir.org/references.html#literal
 	canonicalRegExp = regexp.MustCompile(`^(?P<url>[^|#]+)(\|(?P<version>[A-z0-9-_\.]+))?(#(?P<fragment>[A-z0-9-_\.]{1,64}))?`)
@@ -132,6 +136,9 @@ func VersionedFromResource(resource fhir.CanonicalResource) (*dtpb.Canonical, er
 func IdentityFromReference(c *dtpb.Canonical) (*resource.CanonicalIdentity, error) {
 	value := c.GetValue()
 	match := canonicalRegExp.FindStringSubmatch(value)
+	if match == nil {
+		return nil, fmt.Errorf("%w: '%s'", ErrInvalidCanonical, value)
+	}
 	result := make(map[string]string)
 	for i, name := range canonicalRegExp.SubexpNames() {
 		if i != 0 && name != "" {
